@@ -139,7 +139,7 @@ func (w *World) injectHostileSlash(l *Link) {
 		vsc, vk = 1+uint64(w.Rnd.Int63n(int64(cur))), "old"
 	}
 	inf := stakingtypes.Infraction_INFRACTION_DOWNTIME
-	if w.Rnd.Intn(4) == 0 {
+	if w.Rnd.Intn(4) == 0 || (vk == "never-issued" && w.Rnd.Intn(2) == 0) {
 		inf = stakingtypes.Infraction_INFRACTION_DOUBLE_SIGN
 	}
 	data := ccv.NewSlashPacketData(abci.Validator{Address: addr, Power: 1 + w.Rnd.Int63n(50)}, vsc, inf)
